@@ -193,6 +193,10 @@ HIP_TWEAKS = [
     ('Reservoir Porosity', ['12', '20']),
     ('Reservoir Area', ['60', '100']),
     ('Reservoir Life Cycle', ['20', '35']),
+    # optional inputs that change a derived quantity (pressure) without touching the temperatures
+    ('Reservoir Depth', ['2', '5']),
+    ('Reservoir Pressure', ['30', '80']),
+    ('Recoverable Fluid Factor', ['0.4', '0.6']),
 ]
 
 GEO_POISON = [
